@@ -334,6 +334,32 @@ func (d *cliDriver) oneCase(seed int64, id int) {
 			AggregationMethod: methodOf(cfg.Method), XFilesFactor: xffFloat(cfg.Xff), ArchiveInfoList: archiveInfoList(cfg), From: from, Until: until, ArchiveID: arch}
 		res = e.runCmd(c, &c.TextOut)
 		line("sumcopy", map[string]interface{}{"ccfg": cfg, "files": files, "dst": pre, "k": res.Class, "msg": res.Msg, "post": postOf(it.dst)})
+	case "C20":
+		dest := filepath.Join(root, "gen.wsp")
+		max := []int{0, 1, 5, 100}[rnd.Intn(4)]
+		fill := rnd.Intn(4) != 0
+		gmp := Mapping{B: mp.B, Scale: 1}
+		c := &cmd.GenerateCommand{Dest: dest, Perm: 0644, AggregationMethod: methodOf(cfg.Method), XFilesFactor: xffFloat(cfg.Xff),
+			ArchiveInfoList: archiveInfoList(cfg), RandMax: max, Fill: fill}
+		res := e.runCmd(c, &c.TextOut)
+		snap := snapshot(dest, cfg, gmp)
+		hdr := MCfg{Layout: []MArch{}, Method: "?", Xff: [2]int64{0, 1}}
+		buf, _ := ioutil.ReadFile(dest)
+		if h, _, err := decodeFile(buf); err == nil && headerMatches(h, cfg) == nil {
+			hdr = cfg
+		}
+		c2 := *c
+		r2 := e.runCmd(&c2, &c2.TextOut)
+		buf2, _ := ioutil.ReadFile(dest)
+		post := snap.Sp
+		if post == nil {
+			post = make([][][]interface{}, k)
+			for i := range post {
+				post[i] = [][]interface{}{}
+			}
+		}
+		line("generate", map[string]interface{}{"cfg": cfg, "hdr": hdr, "max": max, "fill": fill, "k": res.Class, "msg": res.Msg,
+			"post": post, "again": r2.Class, "unchanged": string(buf) == string(buf2)})
 	case "C18":
 		it := items[0]
 		src := snapshot(it.srcs[0], srcCfg(it.srcs[0]), mp)
